@@ -219,13 +219,46 @@ func schedDrainLoops(c *Ctx) *RuleResult {
 			info := u.Info()
 			ast.Inspect(u.Decl.Body, func(n ast.Node) bool {
 				loop, ok := n.(*ast.ForStmt)
-				if !ok || loop.Cond == nil {
+				if !ok {
 					return true
 				}
-				mentions := false
-				ast.Inspect(loop.Cond, func(m ast.Node) bool {
-					if e, ok := m.(ast.Expr); ok && fieldOf(info, e) == f {
-						mentions = true
+				mentionsF := func(e ast.Node) bool {
+					found := false
+					ast.Inspect(e, func(m ast.Node) bool {
+						if x, ok := m.(ast.Expr); ok {
+							if fieldOf(info, x) == f {
+								found = true
+							} else if id, ok := x.(*ast.Ident); ok {
+								// a local that holds len(F) / F.Len() for this iteration
+								if src := resolveLocalAlias(u, id); src != ast.Expr(id) {
+									ast.Inspect(src, func(k ast.Node) bool {
+										if y, ok := k.(ast.Expr); ok && fieldOf(info, y) == f {
+											found = true
+										}
+										return true
+									})
+								}
+							}
+						}
+						return !found
+					})
+					return found
+				}
+				// the loop's exit tests: its condition and the guards of the breaks/returns in its body
+				mentions := loop.Cond != nil && mentionsF(loop.Cond)
+				ast.Inspect(loop.Body, func(m ast.Node) bool {
+					switch x := m.(type) {
+					case *ast.FuncLit, *ast.ForStmt, *ast.RangeStmt:
+						return false
+					case *ast.BranchStmt, *ast.ReturnStmt:
+						if b, ok := x.(*ast.BranchStmt); ok && b.Tok != token.BREAK {
+							return true
+						}
+						for _, gd := range GuardsOf(info, loop.Body, x) {
+							if mentionsF(gd.Cond) {
+								mentions = true
+							}
+						}
 					}
 					return true
 				})
@@ -488,7 +521,42 @@ func schedMatchArgs(c *Ctx) *RuleResult {
 	for _, cs := range CallsTo(p.UnitsIn(schedPkg), match) {
 		call := cs.Node.(*ast.CallExpr)
 		construct := constructOf(cs.Unit, "workerMatchesPattern("+exprStr(call.Args[0])+", "+exprStr(call.Args[1])+")")
-		isPattern := func(e ast.Expr) bool { return strings.HasSuffix(exprStr(e), ".WorkerIdPattern") }
+		// a WorkerIdPattern of a request/drain, directly, through a local, or through a parameter
+		// that every caller of the enclosing function fills with one
+		var isPatternIn func(u *FuncUnit, e ast.Expr, depth int) bool
+		isPatternIn = func(u *FuncUnit, e ast.Expr, depth int) bool {
+			e = resolveLocalAlias(u, e)
+			if strings.HasSuffix(exprStr(e), ".WorkerIdPattern") {
+				return true
+			}
+			id, ok := ast.Unparen(e).(*ast.Ident)
+			if !ok || depth > 2 {
+				return false
+			}
+			v, ok := u.Info().Uses[id].(*types.Var)
+			if !ok || !isParamOf(u, v) {
+				return false
+			}
+			idx := -1
+			sig := u.Fn.Type().(*types.Signature)
+			for i := 0; i < sig.Params().Len(); i++ {
+				if sig.Params().At(i) == v {
+					idx = i
+				}
+			}
+			sites := CallsTo(p.UnitsIn(schedPkg), u.Fn)
+			if len(sites) == 0 {
+				return false
+			}
+			for _, s := range sites {
+				sc := s.Node.(*ast.CallExpr)
+				if idx >= len(sc.Args) || !isPatternIn(s.Unit, sc.Args[idx], depth+1) {
+					return false
+				}
+			}
+			return true
+		}
+		isPattern := func(e ast.Expr) bool { return isPatternIn(cs.Unit, e, 0) }
 		if len(call.Args) == 2 && isPattern(call.Args[1]) && !isPattern(call.Args[0]) {
 			r.ok(construct, posOf(p, call), "(worker ID, pattern)")
 		} else {
